@@ -407,7 +407,7 @@ class Check:
         cfg = self.cfg
         ok, out = run_facts(cfg)
         if not ok:
-            self.broken.append({"kind": "facts", "name": "factextract", "detail": out[-1500:]})
+            self.broken.append({"kind": "facts", "name": "factextract", "detail": out if len(out) <= 1500 else out[:80] + " … " + out[-1400:]})
         mod = cfg["props_module"]
         names = source_theorems(mod)
         ok, out, broken = lake_build([mod, "egjudge-" + self.pid])
@@ -710,7 +710,11 @@ def _main(a):
         ck.lake_ok = True
     if getattr(ck, "lake_ok", True) or os.path.exists(os.path.join(LEAN, ".lake/build/bin/egjudge-" + a.pid)):
         ck.correspondence(replay)
-    if ck.broken and not ck.violations and not replay and a.tier == "quick" and not os.environ.get("VERIF_NO_SEARCH"):
+    # A fact extractor that does not BUILD is a defect of /verif's own tooling (its sources are all in /verif),
+    # not a change of the code under test: it is reported as a broken obligation, but a wider search of the
+    # implementation cannot explain it, so none is run.
+    tooling_only = bool(ck.broken) and all(b.get("kind") == "facts" and "factextract build failed" in b.get("detail", "") for b in ck.broken)
+    if ck.broken and not tooling_only and not ck.violations and not replay and a.tier == "quick" and not os.environ.get("VERIF_NO_SEARCH"):
         # search: widen the generator run before giving up on a concrete failing input
         log("obligation/correspondence broken; searching for a failing input with a wider run")
         ck.search_factor = 5
